@@ -22,6 +22,16 @@ PCT_NAMES = ['TestP/100%_done', 'TestQ/%d', 'TestR/50%s']
 UNRECOGNISED = ['FuzzX/seed#0', 'BenchmarkY', 'ExampleZ']
 
 
+MID_SIZES = [4095, 4096, 4097, 5000, 8192, 8193, 12288]
+BIG_SIZES = [65535, 65536, 65537]
+
+
+def MIDLINE(n):
+    """a line of exactly n bytes whose content depends on the position (a cut or a shift shows)"""
+    unit = b'0123456789abcdefghijklmnopqrstuvwxyzABCDEFGHIJKLMNOPQRSTUVWXYZ+/'
+    return (unit * (n // len(unit) + 1))[:n]
+
+
 class Gen:
     def __init__(self, seed):
         self.r = random.Random(seed)
@@ -59,6 +69,13 @@ class Gen:
             # a line with a twin that is equal to it under a hash / prefix / case / whitespace /
             # normalisation shortcut (collide.py); suites.mutate_text swaps it for the twin
             return collide.some_line(r)
+        if k < 0.60 and 'mid' in allow:
+            # one line around the sizes of bufio's default buffers (4096: bufio.Reader / first Scanner
+            # window; 65536: bufio.MaxScanTokenSize): minified JSON, base64 blobs, long log lines
+            return MIDLINE(r.choice(MID_SIZES))
+        if 0.60 <= k < 0.64:
+            # text that is a TEMPLATE for some replace functions (regexp.Expand: $1, $name, ${name})
+            return r.choice([b'DATA_DIR: ${HOME}/data', b'PATH=$PATH:/bin', b'price: $10 per unit', b'$1$2', b'a$b$', b'${', b'$$', b'cost $0.50', b'\\1 \\0 $&'])
         words = ['50% done', 'a%20b', '100%', '%s %d %v', 'foo', 'bar', 'baz', 'hello world', '{', '}', '"a": 1,', 'key: value', '- item', '# comment', 'x' * r.randint(1, 40),
                  'int(5)', 'map[string]int{', '    "k": 1,', '}', '\u00e9\u00e8', 'two  spaces']
         return r.choice(words).encode()
@@ -74,6 +91,9 @@ class Gen:
             # many short lines: entries that straddle the scanner's 4 KiB / 64 KiB buffer windows
             ls += [b'line %04d %s' % (k, b'v' * (k % 23)) for k in range(r.choice([150, 400, 400, 2500]))]
         b = b'\n'.join(ls)
+        if 'crlf' in allow and r.random() < 0.5:
+            # a value with CR LF line endings throughout (raw HTTP response, CSV, Windows text)
+            b = r.choice([b'HTTP/1.1 200 OK\r\nContent-Type: text/plain\r\n\r\n', b'id,name\r\n1,x\r\n', b'']) + b'\r\n'.join(ls) + (b'\r\n' if r.random() < 0.5 else b'')
         if r.random() < 0.25:
             b = b'\n' * r.randint(1, 2) + b
         if r.random() < 0.3:
@@ -145,7 +165,7 @@ class Gen:
             for k in r.sample(['a', 'b', 'name', 'list', 'nested', 'text', 'n'], r.randint(1, 4)):
                 c = r.random()
                 if c < 0.4:
-                    ls.append('%s: %s' % (k, r.choice(['1', 'true', 'hello', '"quoted"', "'single'", '3.14', 'null', '~'])))
+                    ls.append('%s: %s' % (k, r.choice(['1', 'true', 'hello', '"quoted"', "'single'", '3.14', 'null', '~', '${HOME}/data', '$PATH', '$10 per unit', '"$1"'])))
                 elif c < 0.6:
                     ls.append('%s:' % k)
                     for i in range(r.randint(1, 3)):
